@@ -20,7 +20,7 @@ func init() {
 			"(R3) the reader parks waiting for a stream to be created only for the id whose invoke it forwarded itself; " +
 			"(R5) every packet received from the invoke queue is acknowledged exactly once; " +
 			"plus shared pairing/finish rules (C02.R6, C02.R3, C03.R4, C03.R5, C03.R6).",
-		NotDecided: "completion of the probe RPC for all client/handler programs and cancel points (behavioural).",
+		NotDecided:  "completion of the probe RPC for all client/handler programs and cancel points (behavioural).",
 		Assumptions: []string{"handlers return (the library cannot bound a handler)"},
 		Rules: []Rule{
 			{ID: "C06.R1", Doc: "handleRPC: exactly one of SendError(err) / CloseSend() after the handler returns, chosen by err != nil", Run: c06r1},
